@@ -238,8 +238,74 @@ func init() {
 	})
 }
 
+// processedCount reads from a file's bytes how often the non-idempotent patch was applied to it.
+func processedCount(src string) int { return strings.Count(src, "+ 1") }
+
+// c15Aliases: the same files reached under several names because a directory on the way to them is a symbolic link. Each
+// file is still processed exactly once; a symbolic link that is itself named (or met during the walk) is not followed.
+func c15Aliases(ctx *core.Ctx, idx int, res *core.Result) {
+	r := ctx.Rand("c15alias", idx)
+	base, _ := os.MkdirTemp(ctx.Tmp, "c15a")
+	defer os.RemoveAll(base)
+	root := filepath.Join(base, "work")
+	os.MkdirAll(filepath.Join(root, "real", "sub"), 0o755)
+	os.WriteFile(filepath.Join(base, "p.patch"), []byte(c15Patch), 0o644)
+	files := []string{"real/sub/x.go", "real/sub/y.go", "real/top.go"}
+	for _, f := range files {
+		os.WriteFile(filepath.Join(root, f), []byte(c15Src), 0o644)
+	}
+	os.Symlink("real", filepath.Join(root, "link"))
+	os.Symlink(filepath.Join(root, "real", "sub"), filepath.Join(root, "abslink"))
+	type variant struct {
+		cwd    string
+		args   []string
+		covers []string // files that must be processed exactly once; all others not at all
+	}
+	vs := []variant{
+		{"", []string{"real/sub", "link/sub"}, []string{"real/sub/x.go", "real/sub/y.go"}},
+		{"", []string{"link/sub", "real/sub"}, []string{"real/sub/x.go", "real/sub/y.go"}},
+		{"", []string{"link/sub/x.go", "real/sub/x.go"}, []string{"real/sub/x.go"}},
+		{"", []string{"link/sub/...", filepath.Join(root, "real/sub/y.go")}, []string{"real/sub/x.go", "real/sub/y.go"}},
+		{"link", []string{"sub/x.go", filepath.Join(root, "real/sub/x.go")}, []string{"real/sub/x.go"}},
+		{"link", []string{".", filepath.Join(root, "real")}, []string{"real/sub/x.go", "real/sub/y.go", "real/top.go"}},
+		{"", []string{"real", "link"}, []string{"real/sub/x.go", "real/sub/y.go", "real/top.go"}}, // 'link' itself is a symbolic link: not followed
+		{"", []string{"abslink"}, nil},
+	}
+	v := vs[r.Intn(len(vs))]
+	cr := ctx.RunCLI(core.CLIOpts{Dir: filepath.Join(root, v.cwd), Args: append([]string{"-p", filepath.Join(base, "p.patch")}, v.args...)})
+	res.Evals++
+	rep := map[string]string{"args.txt": "cwd work/" + v.cwd + "\n" + strings.Join(v.args, " "), "stderr.txt": string(cr.Stderr)}
+	if cc := cr.CrashClass(); cc != "" || cr.Exit != 0 {
+		res.Violate("C15/"+cc+"nonzero-exit/aliases", string(cr.Stderr), rep)
+		return
+	}
+	for _, f := range files {
+		b, _ := os.ReadFile(filepath.Join(root, f))
+		n := processedCount(string(b))
+		want := 0
+		for _, c := range v.covers {
+			if c == f {
+				want = 1
+			}
+		}
+		switch {
+		case n > 1:
+			res.Violate("C15/file-processed-more-than-once", fmt.Sprintf("%s was processed %d times (arguments %v, reached through a symbolic link to a directory)", f, n, v.args), rep)
+		case n < want:
+			res.Violate("C15/requested-file-not-processed", fmt.Sprintf("%s (arguments %v)", f, v.args), rep)
+		case n > want:
+			res.Violate("C15/file-processed-that-should-not-be", fmt.Sprintf("%s (arguments %v)", f, v.args), rep)
+		}
+	}
+	res.Sig("aliases", v.cwd, strings.Join(v.args, " "))
+}
+
 func runC15(ctx *core.Ctx, idx int) *core.Result {
 	res := &core.Result{}
+	if idx%25 == 7 {
+		c15Aliases(ctx, idx, res)
+		return res
+	}
 	r := ctx.Rand("c15", idx)
 	entries := genTree(r)
 	base, _ := os.MkdirTemp(ctx.Tmp, "c15")
